@@ -168,6 +168,19 @@ Proof.
   - rewrite S1. exact Hy'.
 Qed.
 
+(* core.image.grid_resample (data side of Image.resample) is the per-axis interpolation the ramp theorems speak about *)
+Lemma d_resample2_unfold (s s' : list K) (m0 m1 nx ny : Z) (im : nimg (K:=K)) : ishape im = [nx; ny] ->
+  d_resample floorK 2 s s' [m0; m1] im
+  = interp_ax floorK PZeros 1 (resample_src ny m1 (nth 1 s 0) (nth 1 s' 0)) m1
+      (interp_ax floorK PZeros 0 (resample_src nx m0 (nth 0 s 0) (nth 0 s' 0)) m0 im).
+Proof. intro Hs. unfold d_resample, all_axes. cbn [fold_axes interp_ax ishape]. rewrite Hs. reflexivity. Qed.
+Lemma d_resample3_unfold (s s' : list K) (m0 m1 m2 nx ny nz : Z) (im : nimg (K:=K)) : ishape im = [nx; ny; nz] ->
+  d_resample floorK 3 s s' [m0; m1; m2] im
+  = interp_ax floorK PZeros 2 (resample_src nz m2 (nth 2 s 0) (nth 2 s' 0)) m2
+      (interp_ax floorK PZeros 1 (resample_src ny m1 (nth 1 s 0) (nth 1 s' 0)) m1
+        (interp_ax floorK PZeros 0 (resample_src nx m0 (nth 0 s 0) (nth 0 s' 0)) m0 im)).
+Proof. intro Hs. unfold d_resample, all_axes. cbn [fold_axes interp_ax ishape]. rewrite Hs. reflexivity. Qed.
+
 (* ---------- ramp_preserved: resize family and resample, 2-D and 3-D ---------- *)
 Section Ramp2.
 Variables (nz mz : nat -> Z) (s c : nat -> K) (d : nat -> nat -> K) (A : list K) (b : K) (im : nimg (K:=K)).
@@ -217,6 +230,15 @@ Proof.
   rewrite (ramp_is_affine 2 (or_introl eq_refl) n s c d A b) by auto.
   rewrite !resample_src_rsm. unfold dot, vmul. cbn. ring.
 Qed.
+
+(* Image.resample, full statement: for EVERY new spacing and new size (also when the rounded shape does not change) *)
+Theorem ramp_d_resample2 (s' : nat -> K) (jx jy : Z) :
+  (forall i, (i < 2)%nat -> s i <> 0) ->
+  fovc floorK (nz 0%nat) (resample_src (nz 0%nat) (mz 0%nat) (s 0%nat) (s' 0%nat) jx) ->
+  fovc floorK (nz 1%nat) (resample_src (nz 1%nat) (mz 1%nat) (s 1%nat) (s' 1%nat) jy) ->
+  ival (d_resample floorK 2 (vtab 2 s) (vtab 2 s') [mz 0%nat; mz 1%nat] im) [jx; jy]
+  = dot A (gen_pts 2 GRID WORLD (vtab 2 m) (vtab 2 s') (vtab 2 c) (tab 2 2 d) [of_Z jx; of_Z jy]) + b.
+Proof. intros Hs F0 F1. rewrite (d_resample2_unfold _ _ _ _ _ _ im Hshape). apply ramp_resample2; auto. Qed.
 End Ramp2.
 
 Section Ramp3.
@@ -275,5 +297,14 @@ Proof.
   rewrite (ramp_is_affine 3 (or_intror eq_refl) n s c d A b) by auto.
   rewrite !resample_src_rsm. unfold dot, vmul. cbn. ring.
 Qed.
+
+Theorem ramp_d_resample3 (s' : nat -> K) (jx jy jz : Z) :
+  (forall i, (i < 3)%nat -> s i <> 0) ->
+  fovc floorK (nz 0%nat) (resample_src (nz 0%nat) (mz 0%nat) (s 0%nat) (s' 0%nat) jx) ->
+  fovc floorK (nz 1%nat) (resample_src (nz 1%nat) (mz 1%nat) (s 1%nat) (s' 1%nat) jy) ->
+  fovc floorK (nz 2%nat) (resample_src (nz 2%nat) (mz 2%nat) (s 2%nat) (s' 2%nat) jz) ->
+  ival (d_resample floorK 3 (vtab 3 s) (vtab 3 s') [mz 0%nat; mz 1%nat; mz 2%nat] im) [jx; jy; jz]
+  = dot A (gen_pts 3 GRID WORLD (vtab 3 m) (vtab 3 s') (vtab 3 c) (tab 3 3 d) [of_Z jx; of_Z jy; of_Z jz]) + b.
+Proof. intros Hs F0 F1 F2. rewrite (d_resample3_unfold _ _ _ _ _ _ _ _ im Hshape). apply ramp_resample3; auto. Qed.
 End Ramp3.
 End C04World.
